@@ -38,17 +38,27 @@ def register(K):
         head = eng.rules_strip(z3.SubString(c, 0, cut))
         return V("str", z3.If(z3.And(z3.Length(c) > 32, cut >= 0), z3.Concat(head, z3.StringVal("(...)")), c))
 
-    K.contract("fickle.is_std_module", params="module_name: str", returns="bool", pure=True, trusted="stdlib_list.in_stdlib + sys.builtin_module_names",
+    # "the standard library" of the statement: stdlib_list's list for the running interpreter, or a builtin module of this interpreter —
+    # the name *as written in the pickle* is what is looked up (no renaming table in between).  is_std_module is verified against this
+    # definition (props/c04.py), not trusted; stdlib_list.in_stdlib itself is external (a function of its argument).
+    IN_STDLIB = z3.Function("IN_STDLIB", Str, Bool)
+    K.contract("fickle.is_std_module", params="module_name: str", returns="bool", pure=True,
                ensures=["result == IS_STD(module_name)"], effects=["fs-read(package-data)"])
 
     @K.spec("IS_STD")
     def is_std(eng, st, m):
-        return vbool(STD(m.t))
+        names = eng.repo.live.get("module_str_sets", {}).get("fickle", {}).get("BUILTIN_MODULE_NAMES", {}).get("items")
+        if names is None:
+            return vbool(STD(m.t))          # (the table is gone from the working tree: the definition stays abstract)
+        return vbool(z3.Or([IN_STDLIB(m.t)] + [m.t == z3.StringVal(x) for x in names]))
 
     @K.external("stdlib_list.in_stdlib")
     def _in_stdlib(eng, st, args, kw, node):
         st.log.append(("effect", "fs-read(package-data)", "stdlib_list.in_stdlib", getattr(node, "lineno", 0)))
-        return [(st, vbool(fresh("in_stdlib", Bool)))]
+        a = args[0] if args else kw.get("module_name")
+        if a is None or a.k != "str":
+            return [(st, vbool(fresh("in_stdlib", Bool)))]
+        return [(st, vbool(IN_STDLIB(a.t)))]
 
     # ---- AnalysisContext.shorten_code -----------------------------------------------------------------------------------
     K.contract("analysis.AnalysisContext.shorten_code", params="self: analysis.AnalysisContext, ast_node: val", returns="tuple(str,bool)",
